@@ -35,10 +35,17 @@ def norm : XExpr → Nat → XExpr
   | .errWrap x tok none, _ => .errWrap (norm x highestPrec) tok none
   | .errWrap x tok (some d), p =>
     wrapP (decide (unaryPrec < p)) (.errWrap (norm x highestPrec) tok (some (norm d unaryPrec)))
+  | .typeAssert x ty, _ => .typeAssert (norm x highestPrec) ty
+  | .lambda lhs lp rhs rp, p =>
+    wrapP (decide (lowestPrec < p)) (.lambda lhs lp (if rp then normL rhs else normB rhs) rp)
   | e, _ => e
 def normL : List XExpr → List XExpr
   | [] => []
   | e :: r => norm e lowestPrec :: normL r
+/-- The single body expression of a lambda without parenthesised results. -/
+def normB : List XExpr → List XExpr
+  | [b] => [norm b lowestPrec]
+  | l => l
 end
 
 def isBinOp (o : Op) : Bool := decide (1 ≤ prec o) && decide (prec o < unaryPrec)
@@ -59,10 +66,21 @@ def wf : XExpr → Bool
   | .call f args ell cmd => !cmd && wf f && wfL args && (!ell || !args.isEmpty)
   | .errWrap x tok none => (tok == .NOT || tok == .QUESTION) && wf x
   | .errWrap x tok (some d) => (tok == .NOT || tok == .QUESTION) && wf x && wf d
+  | .typeAssert x none => wf x                       -- `x.(type)`
+  | .typeAssert x (some (.ident _)) => wf x          -- `x.(T)`
+  | .lambda lhs lp rhs rp =>
+    -- `x => e`, `=> e`, `(x, y) => e`, `… => (e1, e2)`; more than one parameter needs the parentheses
+    (lp || decide (lhs.length ≤ 1)) && (if rp then !rhs.isEmpty && wfL rhs else wfB rhs)
   | _ => false
 def wfL : List XExpr → Bool
   | [] => true
   | e :: r => wf e && wfL r
+/-- Body of a lambda without parenthesised results: one expression whose printed form does not
+start with `(` (which the parser would take for a result list; finding
+`lambda-body-leading-paren`). -/
+def wfB : List XExpr → Bool
+  | [b] => wf b && !headIs .LPAREN (toks b lowestPrec)
+  | _ => false
 end
 
 mutual
@@ -76,10 +94,15 @@ def size : XExpr → Nat
   | .call f args _ _ => size f + sizeL args + 1
   | .errWrap x _ none => size x + 1
   | .errWrap x _ (some d) => size x + size d + 1
+  | .typeAssert x _ => size x + 1
+  | .lambda lhs _ rhs rp => lhs.length + (if rp then sizeL rhs else sizeB rhs) + 1
   | _ => 1
 def sizeL : List XExpr → Nat
   | [] => 0
   | e :: r => size e + 1 + sizeL r
+def sizeB : List XExpr → Nat
+  | [b] => size b
+  | _ => 0
 end
 
 /-- Fuel bound per node. -/
@@ -128,6 +151,12 @@ def isStart : Tok → Bool
   | .op o => o == .LPAREN || o == .ENV || o == .ADD || o == .SUB || o == .NOT || o == .XOR || o == .AND
       || o == .ARROW || o == .MUL
   | _ => false
+
+/-- ... or a lambda without parameters (`=> e`). -/
+def isStartL (t : Tok) : Bool := isStart t || t == .op .DRARROW
+
+theorem isStartL_of_isStart {t : Tok} (h : isStart t = true) : isStartL t = true := by
+  simp [isStartL, h]
 
 theorem opHead_of_stopsLoop {r : List Tok} (h : stopsLoop r = true) : opHead r = true := by
   cases r with
@@ -184,49 +213,49 @@ theorem primaryLoop_call {m : Nat} {x : XExpr} {args : List XExpr} {ell : Bool} 
   simp [primaryLoop, h]
 
 theorem parseIndexOrSlice_index {m : Nat} {x i : XExpr} {t : Tok} {tl r : List Tok}
-    (ht : isStart t = true) (h : parseLambda m false (t :: tl) = .ok (i, .op .RBRACK :: r)) :
+    (ht : isStartL t = true) (h : parseLambda m false (t :: tl) = .ok (i, .op .RBRACK :: r)) :
     parseIndexOrSlice (m + 1) x (t :: tl) = .ok (.index x i, r) := by
   cases t with
-  | op o => cases o <;> simp [isStart] at ht <;> simp [parseIndexOrSlice, h]
+  | op o => cases o <;> simp [isStartL, isStart] at ht <;> simp [parseIndexOrSlice, h]
   | ident s => simp [parseIndexOrSlice, h]
   | lit k v => simp [parseIndexOrSlice, h]
-  | unit u => simp [isStart] at ht
-  | kw s => simp [isStart] at ht
+  | unit u => simp [isStartL, isStart] at ht
+  | kw s => simp [isStartL, isStart] at ht
 
 theorem parseArgs_rparen (m : Nat) (acc : List XExpr) (r : List Tok) :
     parseArgs (m + 1) acc (.op .RPAREN :: r) = .ok ((acc.reverse, false), r) := by
   simp [parseArgs]
 
 theorem parseArgs_comma {m : Nat} {acc : List XExpr} {e : XExpr} {t : Tok} {tl r : List Tok}
-    (ht : isStart t = true) (h : parseLambda m false (t :: tl) = .ok (e, .op .COMMA :: r)) :
+    (ht : isStartL t = true) (h : parseLambda m false (t :: tl) = .ok (e, .op .COMMA :: r)) :
     parseArgs (m + 1) acc (t :: tl) = parseArgs m (e :: acc) r := by
   cases t with
-  | op o => cases o <;> simp [isStart] at ht <;> simp [parseArgs, h]
+  | op o => cases o <;> simp [isStartL, isStart] at ht <;> simp [parseArgs, h]
   | ident s => simp [parseArgs, h]
   | lit k v => simp [parseArgs, h]
-  | unit u => simp [isStart] at ht
-  | kw s => simp [isStart] at ht
+  | unit u => simp [isStartL, isStart] at ht
+  | kw s => simp [isStartL, isStart] at ht
 
 theorem parseArgs_last {m : Nat} {acc : List XExpr} {e : XExpr} {t : Tok} {tl r : List Tok}
-    (ht : isStart t = true) (h : parseLambda m false (t :: tl) = .ok (e, .op .RPAREN :: r)) :
+    (ht : isStartL t = true) (h : parseLambda m false (t :: tl) = .ok (e, .op .RPAREN :: r)) :
     parseArgs (m + 1) acc (t :: tl) = .ok (((e :: acc).reverse, false), r) := by
   cases t with
-  | op o => cases o <;> simp [isStart] at ht <;> simp [parseArgs, h]
+  | op o => cases o <;> simp [isStartL, isStart] at ht <;> simp [parseArgs, h]
   | ident s => simp [parseArgs, h]
   | lit k v => simp [parseArgs, h]
-  | unit u => simp [isStart] at ht
-  | kw s => simp [isStart] at ht
+  | unit u => simp [isStartL, isStart] at ht
+  | kw s => simp [isStartL, isStart] at ht
 
 theorem parseArgs_ell {m : Nat} {acc : List XExpr} {e : XExpr} {t : Tok} {tl r : List Tok}
-    (ht : isStart t = true)
+    (ht : isStartL t = true)
     (h : parseLambda m false (t :: tl) = .ok (e, .op .ELLIPSIS :: .op .RPAREN :: r)) :
     parseArgs (m + 1) acc (t :: tl) = .ok (((e :: acc).reverse, true), r) := by
   cases t with
-  | op o => cases o <;> simp [isStart] at ht <;> simp [parseArgs, h]
+  | op o => cases o <;> simp [isStartL, isStart] at ht <;> simp [parseArgs, h]
   | ident s => simp [parseArgs, h]
   | lit k v => simp [parseArgs, h]
-  | unit u => simp [isStart] at ht
-  | kw s => simp [isStart] at ht
+  | unit u => simp [isStartL, isStart] at ht
+  | kw s => simp [isStartL, isStart] at ht
 
 theorem parseOperand_ident (n : Nat) (lhs tup : Bool) (s : Str) (r : List Tok) (h : opHead r = true) :
     parseOperand (n + 1) lhs tup (.ident s :: r) = .ok (.ident s, r) := by
@@ -255,14 +284,14 @@ theorem parseOperand_envBrace (n : Nat) (lhs tup : Bool) (s : Str) (r : List Tok
   simp [parseOperand]
 
 theorem parseOperand_paren {n : Nat} {lhs tup : Bool} {x : XExpr} {t : Tok} {tl r : List Tok}
-    (ht : isStart t = true) (h : parseLambda n false (t :: tl) = .ok (x, .op .RPAREN :: r)) :
+    (ht : isStartL t = true) (h : parseLambda n false (t :: tl) = .ok (x, .op .RPAREN :: r)) :
     parseOperand (n + 1) lhs tup (.op .LPAREN :: t :: tl) = .ok (.paren x, r) := by
   cases tup <;> cases t with
-  | op o => cases o <;> simp [isStart] at ht <;> simp [parseOperand, h]
+  | op o => cases o <;> simp [isStartL, isStart] at ht <;> simp [parseOperand, h]
   | ident s => simp [parseOperand, h]
   | lit k v => simp [parseOperand, h]
-  | unit u => simp [isStart] at ht
-  | kw s => simp [isStart] at ht
+  | unit u => simp [isStartL, isStart] at ht
+  | kw s => simp [isStartL, isStart] at ht
 
 theorem parsePrimary_step {n : Nat} {lhs tup : Bool} {ts r : List Tok} {x : XExpr}
     (h : parseOperand n lhs tup ts = .ok (x, r)) (hx : isTuple x = false) :
@@ -346,5 +375,125 @@ theorem parseLambda_plain {n : Nat} {tup : Bool} {t : Tok} {tl r : List Tok} {x 
     (hr : headIs .DRARROW r = false) (hx : isTuple x = false) :
     parseLambda (n + 1) tup (t :: tl) = .ok (x, r) := by
   simp [parseLambda, headIs_of_isStart ht, h, hr, hx]
+
+/-! ### Lambda expressions -/
+
+/-- The conversion of the parsed left-hand side at the end of `parseLambdaExpr`. -/
+def lamOf (x? : Option XExpr) (rl : List XExpr) (rp : Bool) (r3 : List Tok) : Res XExpr :=
+  match x? with
+  | none => .ok (.lambda [] false rl rp, r3)
+  | some (.tuple items _) =>
+    (match toIdents? items with
+     | some l => .ok (.lambda l true rl rp, r3)
+     | none => .error .err)
+  | some (.paren x) =>
+    (match toIdent? (unparen x) with
+     | some s => .ok (.lambda [s] true rl rp, r3)
+     | none => .error .err)
+  | some x =>
+    (match toIdent? x with
+     | some s => .ok (.lambda [s] false rl rp, r3)
+     | none => .error .err)
+
+theorem parseLambda_arrow (n : Nat) (tup : Bool) (r : List Tok) :
+    parseLambda (n + 1) tup (.op .DRARROW :: r) = parseLamTail n none r := by
+  simp [parseLambda, headIs]
+
+theorem parseLambda_lhs {n : Nat} {tup : Bool} {ts r1 : List Tok} {x : XExpr}
+    (hh : headIs .DRARROW ts = false)
+    (h : parseBinary n false 1 true ts = .ok (x, .op .DRARROW :: r1)) :
+    parseLambda (n + 1) tup ts = parseLamTail n (some x) r1 := by
+  rw [parseLambda]
+  simp only [hh, h]
+  simp [headIs]
+
+theorem parseLamTail_body {n : Nat} {x? : Option XExpr} {t : Tok} {tl r3 : List Tok} {e : XExpr}
+    (ht : isStartL t = true) (hp : t ≠ .op .LPAREN)
+    (h : parseLambda n false (t :: tl) = .ok (e, r3)) :
+    parseLamTail (n + 1) x? (t :: tl) = lamOf x? [e] false r3 := by
+  cases t with
+  | op o =>
+    cases o <;> simp [isStartL, isStart] at ht <;> first
+      | exact absurd rfl hp
+      | (cases x? with
+         | none => simp [parseLamTail, h, lamOf]
+         | some x => cases x <;> simp [parseLamTail, h, lamOf, toIdent?] <;> rfl)
+  | ident s =>
+    cases x? with
+    | none => simp [parseLamTail, h, lamOf]
+    | some x => cases x <;> simp [parseLamTail, h, lamOf, toIdent?] <;> rfl
+  | lit k v =>
+    cases x? with
+    | none => simp [parseLamTail, h, lamOf]
+    | some x => cases x <;> simp [parseLamTail, h, lamOf, toIdent?] <;> rfl
+  | unit u => simp [isStartL, isStart] at ht
+  | kw s => simp [isStartL, isStart] at ht
+
+theorem parseLamTail_paren {n : Nat} {x? : Option XExpr} {r2 r3 : List Tok} {l : List XExpr}
+    (h : parseLamRhs n [] r2 = .ok (l, r3)) :
+    parseLamTail (n + 1) x? (.op .LPAREN :: r2) = lamOf x? l true r3 := by
+  cases x? with
+  | none => simp [parseLamTail, h, lamOf]
+  | some x => cases x <;> simp [parseLamTail, h, lamOf, toIdent?] <;> rfl
+
+theorem parseLamRhs_comma {n : Nat} {acc : List XExpr} {ts r1 : List Tok} {e : XExpr}
+    (h : parseLambda n false ts = .ok (e, .op .COMMA :: r1)) :
+    parseLamRhs (n + 1) acc ts = parseLamRhs n (e :: acc) r1 := by
+  simp [parseLamRhs, h]
+
+theorem parseLamRhs_last {n : Nat} {acc : List XExpr} {ts r1 : List Tok} {e : XExpr}
+    (h : parseLambda n false ts = .ok (e, .op .RPAREN :: r1)) :
+    parseLamRhs (n + 1) acc ts = .ok ((e :: acc).reverse, r1) := by
+  simp [parseLamRhs, h]
+
+/-- `( )` with allowTuple. -/
+theorem parseOperand_unit (n : Nat) (lhs : Bool) (r : List Tok) :
+    parseOperand (n + 1) lhs true (.op .LPAREN :: .op .RPAREN :: r) = .ok (.tuple [] false, r) := by
+  simp [parseOperand]
+
+/-- `( x , …` with allowTuple: the tuple items follow. -/
+theorem parseOperand_tuple {n : Nat} {lhs : Bool} {x : XExpr} {t : Tok} {tl r : List Tok}
+    (ht : isStartL t = true) (h : parseLambda n false (t :: tl) = .ok (x, .op .COMMA :: r)) :
+    parseOperand (n + 1) lhs true (.op .LPAREN :: t :: tl) = parseTupleItems n [x] (.op .COMMA :: r) := by
+  cases t with
+  | op o => cases o <;> simp [isStartL, isStart] at ht <;> simp [parseOperand, h]
+  | ident s => simp [parseOperand, h]
+  | lit k v => simp [parseOperand, h]
+  | unit u => simp [isStartL, isStart] at ht
+  | kw s => simp [isStartL, isStart] at ht
+
+theorem parseTupleItems_comma {n : Nat} {acc : List XExpr} {r r1 : List Tok} {x : XExpr}
+    (h : parseLambda n false r = .ok (x, r1)) :
+    parseTupleItems (n + 1) acc (.op .COMMA :: r) = parseTupleItems n (x :: acc) r1 := by
+  simp [parseTupleItems, h]
+
+theorem parseTupleItems_rparen (n : Nat) (acc : List XExpr) (r : List Tok) :
+    parseTupleItems (n + 1) acc (.op .RPAREN :: r) = .ok (.tuple acc.reverse false, r) := by
+  simp [parseTupleItems]
+
+theorem parsePrimary_tuple {n : Nat} {lhs tup : Bool} {ts r : List Tok} {x : XExpr}
+    (h : parseOperand n lhs tup ts = .ok (x, r)) (hx : isTuple x = true) :
+    parsePrimary (n + 1) lhs tup ts = .ok (x, r) := by
+  simp [parsePrimary, h, hx]
+
+theorem parseErrWrap_tuple {n : Nat} {lhs tup : Bool} {ts r : List Tok} {items : List XExpr} {ell : Bool}
+    (h : parsePrimary n lhs tup ts = .ok (.tuple items ell, r)) :
+    parseErrWrap (n + 1) lhs tup ts = .ok (.tuple items ell, r) := by
+  simp [parseErrWrap, h]
+
+theorem parseBinary_tuple {n : Nat} {lhs tup : Bool} {p1 : Nat} {ts r : List Tok} {x : XExpr}
+    (h : parseUnary n lhs tup ts = .ok (x, r)) (hx : isTuple x = true) :
+    parseBinary (n + 1) lhs p1 tup ts = .ok (x, r) := by
+  simp [parseBinary, h, hx]
+
+theorem primaryLoop_typeAssert_ident (m : Nat) (x : XExpr) (a : Str) (r : List Tok) :
+    primaryLoop (m + 1) x (.op .PERIOD :: .op .LPAREN :: .ident a :: .op .RPAREN :: r) =
+      primaryLoop m (.typeAssert x (some (.ident a))) r := by
+  simp [primaryLoop]
+
+theorem primaryLoop_typeAssert_type (m : Nat) (x : XExpr) (r : List Tok) :
+    primaryLoop (m + 1) x (.op .PERIOD :: .op .LPAREN :: .kw kwType :: .op .RPAREN :: r) =
+      primaryLoop m (.typeAssert x none) r := by
+  simp [primaryLoop]
 
 end GopModel.ExprSyntax
